@@ -38,6 +38,11 @@ type resubSource struct {
 	maxLive  int
 	log      []string
 	wg       sync.WaitGroup
+	// gated: an attempt's goroutine plays only when the harness opens its gate (used where the
+	// operator does not block in Subscribe, so that the harness can step the attempts one by one)
+	gated bool
+	gates map[int]chan struct{}
+	dones map[int]chan struct{}
 	// hook(att, j): before the j-th notification (0-based) of attempt att (1-based); j = -1: in the teardown
 	hook func(att, j int)
 }
@@ -71,8 +76,19 @@ func (s *resubSource) Observable() ro.Observable[int] {
 		}
 		if s.async {
 			s.wg.Add(1)
+			var gate, done chan struct{}
+			if s.gated {
+				gate, done = make(chan struct{}), make(chan struct{})
+				s.mu.Lock()
+				s.gates[k], s.dones[k] = gate, done
+				s.mu.Unlock()
+			}
 			go func() {
 				defer s.wg.Done()
+				if gate != nil {
+					<-gate
+					defer close(done)
+				}
 				play()
 			}()
 		} else {
@@ -152,18 +168,24 @@ func runResubCase(c *Case) string {
 	}
 	ct, _ := strconv.Atoi(c.get("ct", "0"))
 
-	src := &resubSource{outcomes: outcomes, async: mode == "async"}
+	src := &resubSource{outcomes: outcomes, async: mode == "async", gates: map[int]chan struct{}{}, dones: map[int]chan struct{}{}}
+	src.gated = src.async && op == "Catch"
 	obs := src.Observable()
 
 	// loop condition: the i-th evaluation (by the index the operator passes, or by call count for
 	// the plain variant) returns conds[i], false beyond the list
 	evals := 0
+	runaway := false
 	var evalMu sync.Mutex
 	condAt := func(i int64) bool {
 		evalMu.Lock()
 		evals++
+		if evals > 64 {
+			runaway = true // a loop that does not end by itself: stop it and flag the case
+		}
+		stop := runaway
 		evalMu.Unlock()
-		return i >= 0 && int(i) < len(conds) && conds[i]
+		return !stop && i >= 0 && int(i) < len(conds) && conds[i]
 	}
 	calls := int64(0)
 	plainCond := func() bool {
@@ -296,7 +318,23 @@ func runResubCase(c *Case) string {
 		defer runtime.GOMAXPROCS(prev)
 	}
 	target.SubscribeWithContext(runCtx, endpoint)
+	if src.gated {
+		// attempt k+1 can only be subscribed while attempt k plays: step them in order
+		for k := 1; ; k++ {
+			src.mu.Lock()
+			gate, done := src.gates[k], src.dones[k]
+			src.mu.Unlock()
+			if gate == nil {
+				break
+			}
+			close(gate)
+			<-done
+		}
+	}
 	src.wg.Wait()
+	if runaway {
+		return "res " + c.id + " harness-runaway"
+	}
 
 	src.mu.Lock()
 	defer src.mu.Unlock()
